@@ -43,3 +43,21 @@ package pbutil
 //@   assert @call:pbutil.fromPBContents [contents-passed-on-untouched] arg0 == old(pbPath) && unboxs(arg1) == old(contents)
 //@ func FromPBStringContents$1
 //@   ensures [bytes-of-the-string] len(result) == len(unboxs(cont))
+
+// The file writers put the encoding into a file that holds nothing else: the file comes from Fs.Create (create, or
+// truncate what is there) under the name given, before anything is encoded, and both errors are the caller's.
+//@ func JSONPBWithOpt
+//@   ghostset @call:iface:github.com/spf13/afero.Fs.Create truncated
+//@   assert @call:iface:github.com/spf13/afero.Fs.Create [created-under-the-given-name] arg1 == filename
+//@   assert @call:pbutil.FJSONPBWithOpt [encodes-into-a-truncated-file] ghost("truncated") && arg1 == m
+//@   errprop Fs.Create pbutil.FJSONPBWithOpt
+//@ func TextPBWithOpt
+//@   ghostset @call:iface:github.com/spf13/afero.Fs.Create truncated
+//@   assert @call:iface:github.com/spf13/afero.Fs.Create [created-under-the-given-name] arg1 == filename
+//@   assert @call:pbutil.FTextPBWithOpt [encodes-into-a-truncated-file] ghost("truncated") && arg1 == m
+//@   errprop Fs.Create pbutil.FTextPBWithOpt
+//@ func GeneratePBBinaryMessageFile
+//@   ghostset @call:iface:github.com/spf13/afero.Fs.Create truncated
+//@   assert @call:iface:github.com/spf13/afero.Fs.Create [created-under-the-given-name] arg1 == filename
+//@   assert @call:pbutil.GeneratePBBinaryMessage [encodes-into-a-truncated-file] ghost("truncated") && arg1 == m
+//@   errprop Fs.Create pbutil.GeneratePBBinaryMessage
